@@ -1,9 +1,9 @@
 package main
 
 import (
-	"strings"
 	"bytes"
 	"math/big"
+	"strings"
 
 	"github.com/crate-crypto/go-ipa/bandersnatch/fp"
 	"github.com/crate-crypto/go-ipa/bandersnatch/fr"
